@@ -492,6 +492,9 @@ class Client(base_client.BaseClient):
                 self.queue.put(None)
                 break
             for pkt in p.packets:
+                if self.state != 'connected':
+                    # disconnected while the request was in progress
+                    break
                 self._receive_packet(pkt)
 
         if self.write_loop_task:  # pragma: no branch
@@ -543,6 +546,9 @@ class Client(base_client.BaseClient):
                 self.logger.info(
                     'Unexpected error decoding packet: "%s", aborting', str(e))
                 self.queue.put(None)
+                break
+            if self.state != 'connected':
+                # disconnected while waiting for this packet
                 break
             self._receive_packet(pkt)
 
